@@ -245,3 +245,319 @@ theorem Segmented.positions {S p rs segs e} (h : Segmented S p rs segs e) :
   | err p rs c q _ _ _ => intro i hi; simp at hi
 
 end Emerge.Scanner
+
+namespace Emerge.Scanner
+
+/-! ### compositionality: scanning a concatenation at a token boundary -/
+
+theorem munch_all_of_run {adv : Nat → Rune → Option Nat} :
+    ∀ (a : List Rune) (s q : Nat) (b : List Rune), run adv s a = some q →
+      (b = [] ∨ ∃ r rest, b = r :: rest ∧ adv q r = none) →
+      munch adv s (a ++ b) = (q, a, b) := by
+  intro a
+  induction a with
+  | nil =>
+    intro s q b hr hb
+    simp [run] at hr; subst hr
+    rcases hb with rfl | ⟨r, rest, rfl, hd⟩
+    · simp [munch]
+    · simp [munch, hd]
+  | cons x a ih =>
+    intro s q b hr hb
+    simp only [run] at hr
+    cases hx : adv s x with
+    | none => rw [hx] at hr; cases hr
+    | some s' =>
+      rw [hx] at hr
+      simp only [List.cons_append, munch, hx]
+      rw [ih s' q b hr hb]
+
+/-- Fuel is irrelevant once it exceeds the length of the input. -/
+theorem segments_fuel (S : Spec) :
+    ∀ (n n' : Nat) (p : Pos) (rs : List Rune), rs.length < n → rs.length < n' →
+      segments S n p rs = segments S n' p rs := by
+  intro n
+  induction n with
+  | zero => intro n' p rs h; omega
+  | succ n ih =>
+    intro n' p rs h h'
+    cases n' with
+    | zero => omega
+    | succ n' =>
+      cases rs with
+      | nil => simp [segments]
+      | cons r rs =>
+        simp only [segments]
+        split
+        · rfl
+        · split
+          · rfl
+          · split
+            · rfl
+            · rename_i hc
+              have hl := congrArg List.length (munch_append S.adv 0 (r :: rs))
+              simp at hl
+              have : 0 < (munch S.adv 0 (r :: rs)).2.1.length := List.length_pos_iff.mpr hc
+              simp at h h'
+              rw [ih n' _ _ (by omega) (by omega)]
+
+/-- segmentation with canonical fuel -/
+def seg (S : Spec) (p : Pos) (rs : List Rune) : List Seg × End := segments S (rs.length + 1) p rs
+
+theorem seg_nil (S : Spec) (p : Pos) : seg S p [] = ([], .eof) := by simp [seg, segments]
+
+/-- one-step unfolding of the segmentation -/
+theorem seg_cons (S : Spec) (p : Pos) (x : Rune) (xs : List Rune) :
+    seg S p (x :: xs) =
+      (if (munch S.adv 0 (x :: xs)).2.2 = [] ∧ (munch S.adv 0 (x :: xs)).1 = 0 then ([], .eof)
+       else match S.eval (munch S.adv 0 (x :: xs)).1 with
+        | none => ([], .lexErr p (munch S.adv 0 (x :: xs)).2.1)
+        | some _ =>
+          if (munch S.adv 0 (x :: xs)).2.1 = [] then ([], .stuck)
+          else
+            (⟨(munch S.adv 0 (x :: xs)).1, (munch S.adv 0 (x :: xs)).2.1, p⟩ ::
+              (seg S (advPosList p (munch S.adv 0 (x :: xs)).2.1) (munch S.adv 0 (x :: xs)).2.2).1,
+             (seg S (advPosList p (munch S.adv 0 (x :: xs)).2.1) (munch S.adv 0 (x :: xs)).2.2).2)) := by
+  simp only [seg, segments, List.length_cons]
+  by_cases h1 : (munch S.adv 0 (x :: xs)).2.2 = [] ∧ (munch S.adv 0 (x :: xs)).1 = 0
+  · simp only [h1, and_self, if_true]
+  · simp only [h1, if_false]
+    cases hev : S.eval (munch S.adv 0 (x :: xs)).1 with
+    | none => rfl
+    | some km =>
+      simp only
+      by_cases hc : (munch S.adv 0 (x :: xs)).2.1 = []
+      · simp only [hc, if_true]
+      · simp only [hc, if_false]
+        have hl := congrArg List.length (munch_append S.adv 0 (x :: xs))
+        simp at hl
+        have : 0 < (munch S.adv 0 (x :: xs)).2.1.length := List.length_pos_iff.mpr hc
+        rw [segments_fuel S (xs.length + 1) ((munch S.adv 0 (x :: xs)).2.2.length + 1) _ _ (by omega) (by omega)]
+
+theorem scan_eq_seg (S : Spec) (rs : List Rune) :
+    scan S rs = ((seg S Pos.start rs).1.filterMap (tokenOf S), (seg S Pos.start rs).2) := rfl
+
+/-- state in which the last segment ended (0 if there is none) -/
+def lastState (segs : List Seg) : Nat := (segs.getLast?.map Seg.state).getD 0
+
+/-- **Compositionality at a token boundary.** If `a` is segmented completely (ending with
+    end-of-input) and the automaton cannot continue the last segment of `a` with the first rune of
+    `b`, then the segmentation of `a ++ b` is that of `a` followed by that of `b` started at the
+    position after `a`. -/
+theorem seg_append (S : Spec) (h0 : NoReentry S) (hz : S.eval 0 = none) :
+    ∀ (k : Nat) (p : Pos) (a b : List Rune) (segsA : List Seg),
+      a.length ≤ k → a ≠ [] → seg S p a = (segsA, .eof) →
+      (b = [] ∨ ∃ r rest, b = r :: rest ∧ S.adv (lastState segsA) r = none) →
+      seg S p (a ++ b) = (segsA ++ (seg S (advPosList p a) b).1, (seg S (advPosList p a) b).2) := by
+  intro k
+  induction k with
+  | zero => intro p a b segsA hk hne; cases a <;> simp at hk hne
+  | succ k ih =>
+    intro p a b segsA hk hne hseg hb
+    cases a with
+    | nil => exact absurd rfl hne
+    | cons x a' =>
+      have happ := munch_append S.adv 0 (x :: a')
+      have hrun := munch_run S.adv 0 (x :: a')
+      rw [seg_cons] at hseg
+      generalize hc : (munch S.adv 0 (x :: a')).2.1 = c at *
+      generalize hrr : (munch S.adv 0 (x :: a')).2.2 = rest at *
+      generalize hqq : (munch S.adv 0 (x :: a')).1 = q at *
+      have hq0 : c ≠ [] → q ≠ 0 := by
+        intro hcne hq
+        have := run_ne_zero h0 0 c hcne
+        rw [hrun, hq] at this; exact this rfl
+      split at hseg
+      · -- exhausted in state 0: impossible
+        rename_i hcond
+        obtain ⟨hrest, hq⟩ := hcond
+        rw [hrest] at happ; simp at happ
+        exact absurd hq (hq0 (by rw [happ]; simp))
+      · cases hev : S.eval q with
+        | none => rw [hev] at hseg; simp at hseg
+        | some km =>
+          rw [hev] at hseg
+          have hcne : c ≠ [] := by
+            intro hnil
+            rw [hnil] at hrun; simp [run] at hrun
+            rw [← hrun, hz] at hev; cases hev
+          simp only [hcne, if_false] at hseg
+          have hsegs : ⟨q, c, p⟩ :: (seg S (advPosList p c) rest).1 = segsA := (Prod.mk.inj hseg).1
+          have hend : (seg S (advPosList p c) rest).2 = .eof := (Prod.mk.inj hseg).2
+          have hlen : c.length + rest.length = a'.length + 1 := by
+            have := congrArg List.length happ; simpa using this
+          have hcpos : 0 < c.length := List.length_pos_iff.mpr hcne
+          by_cases hrest : rest = []
+          · -- the first segment is all of `a`
+            subst hrest
+            simp at happ
+            rw [seg_nil] at hsegs
+            subst hsegs
+            simp [lastState] at hb
+            have hm1 : munch S.adv 0 (x :: a' ++ b) = (q, x :: a', b) := by
+              apply munch_all_of_run
+              · rw [← happ]; exact hrun
+              · rcases hb with h | ⟨r, ⟨rs, h1⟩, h2⟩
+                · left; exact h
+                · right; exact ⟨r, rs, h1, h2⟩
+            have e1 : (x :: a') ++ b = x :: (a' ++ b) := rfl
+            rw [e1, seg_cons]
+            rw [← e1, hm1]
+            have hnot : ¬ (b = [] ∧ q = 0) := fun ⟨_, hq⟩ => hq0 hcne hq
+            simp [hnot, hev, happ]
+          · -- more segments follow inside `a`
+            have hm1 : munch S.adv 0 (x :: a' ++ b) = (q, c, rest ++ b) := by
+              have : x :: a' ++ b = c ++ (rest ++ b) := by rw [← List.append_assoc, happ]
+              rw [this]
+              apply munch_all_of_run _ _ _ _ hrun
+              right
+              rcases munch_stuck S.adv 0 (x :: a') with hnil | ⟨r, rs, hr1, hr2⟩
+              · rw [hrr] at hnil; exact absurd hnil hrest
+              · rw [hrr] at hr1; rw [hqq] at hr2
+                exact ⟨r, rs ++ b, by rw [hr1]; rfl, hr2⟩
+            have e1 : (x :: a') ++ b = x :: (a' ++ b) := rfl
+            rw [e1, seg_cons]
+            rw [← e1, hm1]
+            have hnot : ¬ (rest ++ b = [] ∧ q = 0) := by
+              intro ⟨hh, _⟩; simp at hh; exact hrest hh.1
+            simp only [hnot, if_false, hev, hcne]
+            -- recursive call on the rest of `a`
+            generalize hres : seg S (advPosList p c) rest = res at hsegs hend
+            obtain ⟨segsR, eR⟩ := res
+            simp only at hsegs hend
+            subst hend
+            have hsegsR : segsR ≠ [] := by
+              intro hnil; subst hnil
+              cases rest with
+              | nil => exact hrest rfl
+              | cons y ys =>
+                rw [seg_cons] at hres
+                split at hres
+                · rename_i hcond2
+                  obtain ⟨hr2, hq2⟩ := hcond2
+                  have happ2 := munch_append S.adv 0 (y :: ys)
+                  rw [hr2] at happ2; simp at happ2
+                  have := run_ne_zero h0 0 (munch S.adv 0 (y :: ys)).2.1 (by rw [happ2]; simp)
+                  rw [munch_run] at this
+                  exact this (by rw [hq2])
+                · split at hres
+                  · simp at hres
+                  · split at hres <;> simp at hres
+            have hlast : lastState segsA = lastState segsR := by
+              rw [← hsegs]
+              simp only [lastState]
+              rw [List.getLast?_cons_of_ne_nil hsegsR]
+            rw [hlast] at hb
+            have ihr := ih (advPosList p c) rest b segsR (by simp at hk; omega) hrest hres hb
+            rw [ihr]
+            subst hsegs
+            simp [advPosList_append, ← happ]
+
+end Emerge.Scanner
+
+namespace Emerge.Scanner
+
+/-! ### positions only depend on the start position; blanks only move the start position -/
+
+def End.strip : End → End
+  | .eof => .eof
+  | .lexErr _ t => .lexErr ⟨0, 0, 0⟩ t
+  | .stuck => .stuck
+
+/-- Changing the start position changes nothing but positions. -/
+theorem seg_shift (S : Spec) : ∀ (k : Nat) (p p' : Pos) (rs : List Rune), rs.length ≤ k →
+    (seg S p rs).1.map (fun g => (g.state, g.text)) = (seg S p' rs).1.map (fun g => (g.state, g.text)) ∧
+    (seg S p rs).2.strip = (seg S p' rs).2.strip := by
+  intro k
+  induction k with
+  | zero =>
+    intro p p' rs h
+    cases rs with
+    | nil => simp [seg_nil]
+    | cons x xs => simp at h
+  | succ k ih =>
+    intro p p' rs h
+    cases rs with
+    | nil => simp [seg_nil]
+    | cons x xs =>
+      rw [seg_cons, seg_cons]
+      split
+      · simp
+      · cases hev : S.eval (munch S.adv 0 (x :: xs)).1 with
+        | none => simp [End.strip]
+        | some km =>
+          simp only
+          split
+          · simp
+          · rename_i hc
+            have hl := congrArg List.length (munch_append S.adv 0 (x :: xs))
+            simp at hl
+            have : 0 < (munch S.adv 0 (x :: xs)).2.1.length := List.length_pos_iff.mpr hc
+            simp at h
+            have := ih (advPosList p (munch S.adv 0 (x :: xs)).2.1) (advPosList p' (munch S.adv 0 (x :: xs)).2.1)
+              (munch S.adv 0 (x :: xs)).2.2 (by omega)
+            simp [this.1, this.2]
+
+/-- A class of "blank" runes: from the start state they lead to a skipped, accepting state that
+    loops exactly on the runes of the same class. -/
+structure BlankRune (S : Spec) (r : Rune) (s1 : Nat) : Prop where
+  start : S.adv 0 r = some s1
+  skipped : ∃ k m, S.eval s1 = some (k, m) ∧ S.skipped k = true
+  /-- whatever continues in `s1` stays in `s1` and is also how the start state reaches `s1` -/
+  loop : ∀ x s', S.adv s1 x = some s' → s' = s1 ∧ S.adv 0 x = some s1
+  ne0 : s1 ≠ 0
+
+theorem tokenOf_skipped {S : Spec} {g : Seg} {k m} (he : S.eval g.state = some (k, m)) (hs : S.skipped k = true) :
+    tokenOf S g = none := by
+  simp [tokenOf, he, hs]
+
+/-- **A leading blank only moves the start position**: the tokens (with their positions) and the
+    ending of `r :: b` scanned from `p` are those of `b` scanned from the position after `r`. -/
+theorem seg_leading_blank (S : Spec) {r : Rune} {s1 : Nat} (hb : BlankRune S r s1) (p : Pos) (b : List Rune) :
+    (seg S p (r :: b)).1.filterMap (tokenOf S) = (seg S (advPos p r) b).1.filterMap (tokenOf S) ∧
+    (seg S p (r :: b)).2 = (seg S (advPos p r) b).2 := by
+  obtain ⟨k, m, hev, hsk⟩ := hb.skipped
+  have hm0 : munch S.adv 0 (r :: b) = ((munch S.adv s1 b).1, r :: (munch S.adv s1 b).2.1, (munch S.adv s1 b).2.2) := by
+    simp [munch, hb.start]
+  -- the state reached by the blank run is `s1`
+  have hstay : ∀ (l : List Rune) , (munch S.adv s1 l).1 = s1 := by
+    intro l
+    induction l with
+    | nil => simp [munch]
+    | cons y l ih =>
+      simp only [munch]
+      cases hy : S.adv s1 y with
+      | none => rfl
+      | some s' =>
+        obtain ⟨h1, _⟩ := hb.loop y s' hy
+        subst h1; simpa using ih
+  rw [seg_cons, hm0]
+  simp only [hstay]
+  have hnot : ¬ ((munch S.adv s1 b).2.2 = [] ∧ s1 = 0) := fun ⟨_, h⟩ => hb.ne0 h
+  simp only [hnot, if_false, hev]
+  simp only [List.cons_ne_nil, if_false]
+  rw [List.filterMap_cons, tokenOf_skipped (g := ⟨s1, r :: (munch S.adv s1 b).2.1, p⟩) hev hsk]
+  -- now compare with the scan of `b` itself
+  cases b with
+  | nil => simp [munch, seg_nil]
+  | cons x b' =>
+    cases hx : S.adv s1 x with
+    | none =>
+      -- the blank segment is just `r`
+      simp [munch, hx]
+    | some s' =>
+      obtain ⟨h1, h0x⟩ := hb.loop x s' hx
+      subst h1
+      -- `b` itself starts with the same blank run
+      have hmb : munch S.adv 0 (x :: b') = munch S.adv s' (x :: b') := by
+        simp [munch, h0x, hx]
+      rw [seg_cons (p := advPos p r), hmb]
+      simp only [hstay]
+      have hnot2 : ¬ ((munch S.adv s' (x :: b')).2.2 = [] ∧ s' = 0) := fun ⟨_, h⟩ => hb.ne0 h
+      simp only [hnot2, if_false, hev]
+      have hne : (munch S.adv s' (x :: b')).2.1 ≠ [] := by simp [munch, hx]
+      simp only [hne, if_false]
+      rw [List.filterMap_cons, tokenOf_skipped (g := ⟨s', (munch S.adv s' (x :: b')).2.1, advPos p r⟩) hev hsk]
+      simp [advPosList]
+
+end Emerge.Scanner
